@@ -70,6 +70,7 @@ type Faults struct {
 	ClockBase int64  `json:"clock_base,omitempty"` // unix nanos of simulated epoch
 	PoolDrop  uint32 `json:"pool_drop,omitempty"`  // per-mille: virtual Pool.Put discards
 	PoolSteal bool   `json:"pool_steal,omitempty"` // virtual Pool.Get prefers another task's object
+	GCPoints  int    `json:"gc_points,omitempty"`  // garbage collections (with finalizers drained) forced at seeded steps
 	Seed      uint64 `json:"seed,omitempty"`
 }
 
@@ -119,6 +120,7 @@ type Stats struct {
 	LeakedTasks     uint64
 	Selects         uint64
 	TimersFired     uint64
+	ForcedGCs       uint64
 	Fingerprint     uint64
 	PairFP          []uint64 // hashes of (preempted site, resumed site)
 	Truncated       bool
@@ -149,6 +151,10 @@ var (
 
 	clientsLeft int32
 	graceSteps  uint64
+
+	gcPause bool
+	gcAt    [4]uint64
+	ngc     int
 
 	opBudget   uint64 = 4_000_000
 	softBudget uint64 = 100_000
@@ -198,10 +204,15 @@ func Y(site uint32) {
 	if !on {
 		return
 	}
-	if aborted {
+	if aborted || gcPause {
 		return
 	}
 	stepN++
+	for k := 0; k < ngc; k++ {
+		if gcAt[k] == stepN {
+			forceGC()
+		}
+	}
 	if int(site) < len(SiteHits) {
 		SiteHits[site]++
 	}
@@ -827,6 +838,17 @@ func reset(s Sched, f Faults) {
 		}
 		nchange = d
 	}
+	ngc = 0
+	if f.GCPoints > 0 {
+		est := s.EstSteps
+		if est == 0 {
+			est = 20000
+		}
+		for k := 0; k < f.GCPoints && k < len(gcAt); k++ {
+			gcAt[k] = 1 + frng.next()%est
+			ngc++
+		}
+	}
 	resetPools()
 	resetChans()
 	resetTimers()
@@ -951,4 +973,43 @@ func (r *rngState) next() uint64 {
 	s[2] ^= t
 	s[3] = rotl(s[3], 45)
 	return res
+}
+
+// forceGC is the garbage-collection fault: at a seeded step the current task
+// forces a collection and waits until every finalizer / cleanup queued by it
+// has run. Their code executes on the runtime's finalizer goroutine while all
+// tasks stand still (yield points are inert meanwhile), so the execution stays
+// a function of the seed; the race detector still sees their accesses as
+// concurrent with the tasks', as they are in a real process.
+func forceGC() {
+	setGCPause(true)
+	DrainFinalizers()
+	setGCPause(false)
+}
+
+//go:norace
+func setGCPause(b bool) {
+	gcPause = b
+	if b {
+		stats.ForcedGCs++
+	}
+}
+
+// DrainFinalizers collects garbage and returns after all finalizers that were
+// runnable have finished.
+func DrainFinalizers() {
+	runtime.GC()
+	done := make(chan struct{})
+	s := new([16]byte)
+	runtime.SetFinalizer(s, func(*[16]byte) { close(done) })
+	s = nil
+	for i := 0; i < 50; i++ {
+		runtime.GC()
+		select {
+		case <-done:
+			return
+		default:
+			runtime.Gosched()
+		}
+	}
 }
